@@ -750,8 +750,35 @@ pub fn minimise(ctx: &Ctx, t: &Trace, prop: &str, class: &str, budget: usize) ->
             }
         }
         Producer::Stream { data } => {
-            // drop bytes from the end, then from the front
+            // halve from the end / from the front while the class persists, then byte by byte
             let mut d = data.clone();
+            let mut chunk = d.len() / 2;
+            while chunk >= 1 && execs < budget {
+                let mut progressed = false;
+                if d.len() > chunk {
+                    let shorter = d[..d.len() - chunk].to_vec();
+                    let mut cand = cur.clone();
+                    cand.producer = Producer::Stream { data: shorter.clone() };
+                    if test(&cand, &mut execs) {
+                        cur = cand;
+                        d = shorter;
+                        progressed = true;
+                    }
+                }
+                if !progressed && d.len() > chunk {
+                    let shorter = d[chunk..].to_vec();
+                    let mut cand = cur.clone();
+                    cand.producer = Producer::Stream { data: shorter.clone() };
+                    if test(&cand, &mut execs) {
+                        cur = cand;
+                        d = shorter;
+                        progressed = true;
+                    }
+                }
+                if !progressed {
+                    chunk /= 2;
+                }
+            }
             while d.len() > 1 && execs < budget {
                 let mut cand = cur.clone();
                 let shorter = d[..d.len() - 1].to_vec();
